@@ -67,3 +67,26 @@ Proof. exact fit3_one_spec. Qed.
 (* non-vacuity: L = 1 dex, step = 0.3 gives 5 trial distances (spacing 0.25) *)
 Example C02_example : ndist 1 (3#10) = 5%Z /\ interp_clamp_m [(1, 10); (3, 30)] 2 = Some (fval [(1, 10); (3, 30)] 2) /\ fval [(1, 10); (3, 30)] 2 == 20.
 Proof. repeat split. Qed.
+
+(* ---- remove_resolved=True (not part of the property's quantifier; modelled since the seeded faults C11_c and C04_g):
+   the "remove extended objects" step of Models.fit with the mask as an input (FitMask).  Without flagged entries it is the
+   plain fit; with them the reported distance is unflagged whenever one exists, chi^2 / A_V / predictions are those of the
+   reported distance, and no unflagged distance has a smaller chi^2. *)
+From SedV Require Import FitMask.
+Theorem C02_masked_none : forall pen lo hi logds per_dist ms, (forall m, In m ms -> m = false) ->
+  fit3_one_masked pen lo hi logds per_dist ms = fit3_one pen lo hi logds per_dist.
+Proof. exact masked_none. Qed.
+
+Theorem C02_masked : forall pen lo hi logds per_dist ms, per_dist <> [] ->
+  let r := fit3_one_masked pen lo hi logds per_dist ms in
+  let b := g_best r in
+  let rows := nth b per_dist [] in
+  (b < length per_dist)%nat /\
+  g_sc r = nth b logds 0 /\
+  g_av r = av_at_distance lo hi rows /\
+  g_chi2 r = (if nth b ms false then Xnum.PInf else Xnum.Fin (chi2_m pen rows (g_av r) 0)) /\
+  (forall i, (i < length per_dist)%nat -> nth i ms false = false ->
+     xlt (Xnum.Fin (chi2_m pen (nth i per_dist []) (av_at_distance lo hi (nth i per_dist [])) 0)) (g_chi2 r) = false) /\
+  g_pred r = map (fun x => g_av r * r_a x + r_lm x) rows /\
+  ((exists i, (i < length per_dist)%nat /\ nth i ms false = false) -> nth b ms false = false).
+Proof. exact fit3_one_masked_spec. Qed.
